@@ -46,3 +46,10 @@ def run(c, a):
     c.sample_events(ev, 1, lambda l: '"fn":"substr"' in l and '"ok":true' in l)
     c.trace("TextTrace", ev, timeout=3000)
     c.extra["functions"] = len(jobs)
+    # anti-vacuity: every function, and every format verb of the reference, must have been decided at least once
+    if not sel:
+        from vlib.core import Inconclusive
+        keys = [("jsonroundtrip" if f == "jsonencode>jsondecode" else f) for f in FNS] + ["fmts", "fmtd", "fmtv", "fmtq", "fmtt"]
+        dead = [k for k in keys if c.counts.get(k, 0) == 0]
+        if dead:
+            raise Inconclusive("the reference decided no call of: %s (a vacuous check proves nothing)" % ", ".join(dead))
